@@ -50,18 +50,15 @@ SPEC = {
     'CPython iterates a set of small non-negative ints in increasing order (_canonicalize_axes; ranks < 8)',
   ],
   'model_partial': [
-    'dense_general_formula_partial: the contraction formula is proved for Dense / nnx.Linear at every rank with and without bias '
-    '(dense_formula, through the general dot_general specification) and for DenseGeneral(axis=-1) without bias; axis canonicalisation '
-    '(negative, unsorted, repeated axes) is proved in general (normalize_axes_sound). Missing: scatterIdx for arbitrary contraction/batch '
-    'position sets and the expanded_batch_shape bias reshape-broadcast index lemma (tied by correspondence only)',
-    'group_norm_formula_partial: proved that repeating the statistics along the last axis reads group ch/groupSize, plus the '
-    'counter-example for the code as found (axis 1). Missing: identification of the reshaped statistics view with keep++[C] for '
-    'arbitrary reduction-axis sets',
     'pad_index_maps (circular_conv_formula, reflect_conv_formula, causal_conv_formula, equivariance, causality, output lengths) are '
     'per axis and single channel; the N-d executables are tied to their index formulas at any rank (tensor_ofFn_get, padTensor_get, '
-    'convSpec_get, conv_batch_flatten_inert) but the composite convLayer = product of per-axis formulas is not one theorem',
-    'no theorem (correspondence only): ConvTranspose incl. the CIRCULAR wrap-sum alignment, ConvLocal patch ordering, Einsum bias-shape '
-    'inference, feature_group_count, input dilation, max/min pool, the avg_pool div_shape broadcast, dtype promotion',
+    'convSpec_get, conv_batch_flatten_inert) but the composite convLayer = product of per-axis formulas over N spatial axes is '
+    'not yet one theorem',
+    'ConvTranspose: output lengths (conv_transpose_out_len_same/_valid), the odd-number-of-periods padding and the CIRCULAR wrap-sum '
+    'index formula (wrap_sum_total_odd_periods, wrap_sum_get) are proved; the one-axis scatter (direct-sum) form of '
+    'convTransposeLayer as a whole is tied by correspondence only',
+    'no theorem (correspondence only): ConvLocal patch ordering, Einsum bias-shape inference, feature_group_count, input dilation, '
+    'max/min pool, the avg_pool div_shape broadcast, dtype promotion',
   ],
 }
 
